@@ -19,6 +19,7 @@ Vocabulary (`dtdNames`, `dtdDistinct`, `noPcdata`, `dtdLive`, `toParticleV`) and
 import XsdataModel.Gen.Occurs
 import XsdataModel.Proofs.OccursDtd
 import XsdataModel.Proofs.DtdAttrs
+import XsdataModel.Proofs.EnumDefault
 import XsdataModel.Gen.DtdElem
 
 namespace Props.C16
@@ -337,5 +338,35 @@ theorem dtd_pcdata_value (o : Occur) : dtdClassFields .mixed (some (.pcdata o)) 
 /-- **Element content goes through the occurrence arithmetic of sections 1–3** -/
 theorem dtd_element_content (c : DtdContent) :
     dtdClassFields .element (some c) = .plain (occurs (dtdSites c)) := rfl
+
+/-! ## enumeration-typed fields: the default is the member with the declared *value*
+
+an enumerated attribute `(on|ON|off) "ON"`: `SanitizeAttributesDefaultValue.is_valid_enum_type` turns the string default into a reference
+to member *names* (which `RenameDuplicateAttributes` may have changed: `on`, `ON` → `on`, `ON_1`),
+`Filters.field_default_enum` renders the reference (model `Gen/EnumDefault`, lemmas
+`Proofs/EnumDefault`). -/
+
+/-- **The default of an enumeration-typed field is the member whose value was declared**: for every
+enumeration with pairwise distinct values and (after renaming) pairwise distinct, non-empty member
+names, and every member `m`, a field declared with the default / fixed value `m.value` gets exactly
+`m` as its default — whatever the other members are called, in particular when another member's
+name, or python constant, spells `m.value`. -/
+theorem enum_default_faithful (members : List EnumMember)
+    (hv : (members.map (·.value)).Nodup) (hn : (members.map (·.name)).Nodup)
+    (m : EnumMember) (hm : m ∈ members) (hne : m.name ≠ []) :
+    enumDefaultValues members m.value = some [some m.value] :=
+  enum_default_core members hv hn m hm hne
+
+/-- the hypotheses are satisfiable: `(on | ON | off)` with default `ON`; the members are called
+`on`, `ON_1`, `off` after renaming -/
+example : enumDefaultValues
+    [⟨"on".toList, "on".toList⟩, ⟨"ON".toList, "ON_1".toList⟩, ⟨"off".toList, "off".toList⟩]
+    "ON".toList = some [some "ON".toList] :=
+  enum_default_faithful _ (by decide) (by decide) ⟨"ON".toList, "ON_1".toList⟩ (by decide) (by decide)
+
+/-- a token-list default refers to one member per token -/
+example : enumDefaultValues
+    [⟨"x-1".toList, "x-1".toList⟩, ⟨"x1".toList, "x1_1".toList⟩] "x1 x-1".toList =
+    some [some "x1".toList, some "x-1".toList] := by decide
 
 end Props.C16
